@@ -288,14 +288,20 @@ type batch struct {
 	c     *ev.Ctx
 	what  string
 	buf   []Case
+	bytes int
 	total int64
 }
 
 func newBatch(c *ev.Ctx, what string) *batch { return &batch{c: c, what: what} }
 
 func (b *batch) add(cs Case) {
+	if b.total == 0 && len(b.buf) == 1 && b.c.WantSample() && len(cs.Bytes)+len(cs.Sig)+len(cs.Ext) < 600 && !cs.heavy() {
+		w := cs
+		b.c.Sample(map[string]any{"space": b.what, "case": &w}) // the second case of each space (the first is the baseline)
+	}
 	b.buf = append(b.buf, cs)
-	if len(b.buf) >= 16384 {
+	b.bytes += len(cs.Bytes) // the other large fields are shared between cases, Bytes is built per case
+	if len(b.buf) >= 16384 || b.bytes >= 128<<20 {
 		b.flush()
 	}
 }
@@ -307,7 +313,10 @@ func (b *batch) flush() {
 	buf := b.buf
 	runParallel(b.c, b.what, len(buf), func(r *R, i int) { r.run(&buf[i]) })
 	b.total += int64(len(buf))
-	b.buf = b.buf[:0]
+	for i := range buf {
+		buf[i] = Case{} // release per-case byte strings
+	}
+	b.buf, b.bytes = b.buf[:0], 0
 }
 
 // done flushes and returns the number of cases evaluated.
@@ -359,6 +368,9 @@ func enumDev[T any](base T, fields []field[T], d int, emit func(v T, note string
 
 func flipBit(b []byte, bit int) []byte {
 	o := append([]byte(nil), b...)
+	if bit < 0 || bit >= 8*len(o) {
+		return o // (a combined deviation emptied the field)
+	}
 	o[bit/8] ^= 1 << uint(bit%8)
 	return o
 }
